@@ -259,8 +259,16 @@ class FortranAST:
                 continue
             parent_scope = self.get_inner_scope(inc.line_number)
             added_entities = inc.scope_objs
+            include_file = workspace.get(file_path)
+            if (include_file is None) or (include_file.ast.none_scope is None):
+                # The included file is gone or declares nothing (any more)
+                inc.file = include_file
+                for obj in added_entities:
+                    if (parent_scope is not None) and (obj in parent_scope.children):
+                        parent_scope.children.remove(obj)
+                inc.scope_objs = []
+                continue
             if file_path in workspace:
-                include_file = workspace[file_path]
                 include_ast = include_file.ast
                 inc.file = include_file
                 if include_ast.none_scope:
